@@ -23,6 +23,7 @@ ENGINE = "undo"
 ENGINE_TEXT = "TLA+/TLC program enumeration + design invariants (MC_Undo), programs executed 5x on yrs UndoManager (ext/undo.rs), TLC trace validation (Trace_Undo)"
 TRACE = ("Trace_Undo", "Trace_Undo.cfg")
 REPEAT = 5
+REPLAY = ("yx", lambda s, t: ["yata-run", "--in", s, "--out", t, "--seed", str(vlib.seed()), "--repeat", str(REPEAT)], TRACE[0], TRACE[1])
 XPAR = 10
 
 # name -> (G config, kind, {tier: sample size or None = all})
